@@ -16,7 +16,7 @@ var spaces = []string{" ", " ", " ", "\t", "\v", "\f", "\r", "\u0085", "\u00a0",
 // … and look-alikes that are NOT spaces, plus malformed UTF-8.
 var nonSpaces = []string{"\u200b", "\ufeff", "\u180e", "\xff", "\x80", "\xc0\x80", "\xe2\x80", "\xed\xa0\x80", "\xf4\x90\x80\x80", "\xc2"}
 
-var keys = []string{"a", "b", "c", "goos", "pkg", "é", "k-1", "µ", "a.b", "x/y"}
+var keys = []string{"a", "µarch", "b", "édition", "goos", "pkg", "é", "k-1", "µ", "a.b", "x/y", "ßeta"}
 var badKeys = []string{"A", "Key", "aB", "a b", " a", "É", "1", "-", ".file", "a\u2003b", "ǅ", "a\xffb", "\xffa", ""}
 var values = []string{"1", "x", "x y", "linux", "v:1", " lead", "é", "\xff", "x\r", "Benchmark", ":"}
 var names = []string{"X", "Foo/a=1-8", "", "é", "\xff\xfe", "Unit", "X:", "a=b"}
@@ -302,6 +302,9 @@ func generate() {
 	if hx.Tier() == "thorough" {
 		histories(3, []string{"a", "b", "c", "d", "e"})
 	}
+	// 2b. tool labels (Reset's initConfig) against file lines with the same key: same value,
+	// other value, deletion, re-set, in every order; keys with ASCII and multi-byte first letters
+	labelHistories(hx.N(3, 4))
 	// 3. line grammar, plain and exotic
 	n := hx.N(1500, 40000)
 	for i := 0; i < n; i++ {
@@ -309,7 +312,15 @@ func generate() {
 		if i%5 == 4 {
 			text = mutate(r, text)
 		}
-		runReader(hx.Pick(r, []string{"f", "f", "a b", "é", ""}), text)
+		fn := hx.Pick(r, []string{"f", "f", "a b", "é", ""})
+		switch r.Intn(6) {
+		case 0, 1: // tool labels whose keys and values coincide with what the text sets
+			runReaderInit(fn, text, genLabels(r), nil)
+		case 2: // a reused reader: other text first, then Reset with labels
+			runReaderInit(fn, text, genLabels(r), genText(r, 1+r.Intn(8), false))
+		default:
+			runReader(fn, text)
+		}
 	}
 	// 4. byte soup
 	n = hx.N(800, 30000)
@@ -437,4 +448,53 @@ func longLines(r *hx.Rand) {
 	runFiles([]string{"a", "b"}, false, false, []fsEntry{{"a", long}, {"b", two}}, nil, "longline")
 	runFiles([]string{"a", "b"}, false, false, []fsEntry{{"a", ok}, {"b", two}}, nil, "longline")
 	runFiles([]string{"b", "-", "b"}, true, false, []fsEntry{{"b", two}}, long, "longline")
+}
+
+// genLabels: 0-3 label pairs over the same keys and values the line generators use.
+func genLabels(r *hx.Rand) []string {
+	var l []string
+	for n := r.Intn(4); n > 0; n-- {
+		l = append(l, hx.Pick(r, keys[:6]), hx.Pick(r, append([]string{""}, values[:6]...)))
+	}
+	return l
+}
+
+// labelHistories: every label configuration of two keys (absent / "1" / "22") x every sequence of
+// <= depth file lines over {k: 1, k: 22, k:} for both keys, a benchmark line after each step.
+// One key starts with an ASCII letter, the other with a two-byte lower-case letter.
+func labelHistories(depth int) {
+	ks := []string{"a", "µarch"}
+	var ops []string
+	for _, k := range ks {
+		ops = append(ops, k+": 1", k+": 22", k+":")
+	}
+	labelVals := []string{"", "1", "22"}
+	for _, la := range labelVals {
+		for _, lb := range labelVals {
+			var init []string
+			if la != "" {
+				init = append(init, ks[0], la)
+			}
+			if lb != "" {
+				init = append(init, ks[1], lb)
+			}
+			var rec func(cur []string)
+			rec = func(cur []string) {
+				var b strings.Builder
+				b.WriteString("BenchmarkStart 1 1 ns/op\n")
+				for _, l := range cur {
+					b.WriteString(l)
+					b.WriteString("\nBenchmarkX 1 1 ns/op\n")
+				}
+				runReaderInit("h", []byte(b.String()), init, nil, "labelhistory")
+				if len(cur) == depth {
+					return
+				}
+				for _, o := range ops {
+					rec(append(cur[:len(cur):len(cur)], o))
+				}
+			}
+			rec(nil)
+		}
+	}
 }
